@@ -153,7 +153,7 @@ def run(ctx, crate):
             continue
         b = w.body
         early = []
-        for lp in O.loops_of_body(b):
+        for lp in dirwalk.relevant_loops(w):
             normal, extra = lp.exits()
             early += [b.blocks[x]["tloc"]["line"] for (x, t) in extra]
         a = w.analyze[0]
